@@ -173,6 +173,11 @@ def witness_tables():
         ("param_bounded_param", "subtypes", bt, Qux.new([Node.new([tp.WildCardType(Wrap, tp.Covariant)]), Leaf]),
          [Qux, Node, Wrap, Leaf, kt.String],
          lambda rs: any(kind(r) == "p" and r.name == "Qux" and r.type_args[0] == Leaf for r in rs)),
+        ("nested_contravariant_projection", "subtypes", bt,
+         Box.new([tp.WildCardType(Box.new([tp.WildCardType(Foo, tp.Contravariant)]), tp.Contravariant)]),
+         [Box, Foo, Baz, kt.String],
+         lambda rs: any(kind(r) == "p" and r.name == "Box" and kind(r.type_args[0]) == "p"
+                        and r.type_args[0].type_args[0] == Foo for r in rs)),
     ]
 
 
